@@ -108,6 +108,33 @@ def run(ctx):
     ctx.setcount('branches', len(w.branches))
     ctx.setcount('visit_sites', sum(len(b.sites) for b in w.branches))
 
+    # -- a replacement is recognised by `is not None` or by truthiness: in the second case no node class may be falsy ----------------------------
+    truthy_sites = []
+    tree_w = ctx.src.tree(w.file)
+    walker_fns = [n for n in tree_w.body if isinstance(n, ast.FunctionDef) and (n is w.fn or n.name in w.helpers)]
+    for f_ in walker_fns:
+        rec_vars = set()
+        for n in ast.walk(f_):
+            if isinstance(n, ast.Assign) and isinstance(n.value, ast.Call) and isinstance(n.value.func, ast.Name) and n.value.func.id in ([w.fn.name] + list(w.helpers)):
+                rec_vars |= {t.id for t in n.targets if isinstance(t, ast.Name)}
+        for n in ast.walk(f_):
+            first = None
+            if isinstance(n, ast.BoolOp) and isinstance(n.op, ast.Or):
+                first = n.values[0]
+            elif isinstance(n, (ast.If, ast.IfExp, ast.While)):
+                first = n.test.operand if isinstance(n.test, ast.UnaryOp) and isinstance(n.test.op, ast.Not) else n.test
+            if first is None:
+                continue
+            if (isinstance(first, ast.Call) and isinstance(first.func, ast.Name) and first.func.id in ([w.fn.name] + list(w.helpers))) or \
+                    (isinstance(first, ast.Name) and first.id in rec_vars):
+                truthy_sites.append(n)
+    ctx.setcount('replacement_truthiness_sites', len(truthy_sites))
+    for c in ast_classes:
+        falsy = [m for m in ('__bool__', '__len__') if any(m in k.methods for k in model.mro(c) if k.name != 'object')]
+        ctx.ob('C13.replacement-kept', f'{c.name}', not (falsy and truthy_sites),
+               f'{c.name} defines {falsy}: an instance can be falsy, and query_traversal keeps the ORIGINAL child when the replacement returned for it is falsy '
+               f'(`... or node` at line {truthy_sites[0].lineno if truthy_sites else "?"}): a callback\'s replacement by such a node (an empty {c.name}) is silently dropped',
+               file=c.file, line=c.node.lineno if hasattr(c, 'node') else None, witness='fill_query_params("select * from t where a in ?", [[]])')
     # -- callback-first ---------------------------------------------------------------------------
     cb_calls = [n for n in ast.walk(w.fn) if isinstance(n, ast.Call) and isinstance(n.func, ast.Name) and n.func.id == w.cb]
     ok = False
